@@ -112,4 +112,30 @@ theorem viewOf_key {s : St} {out : List (Nat × OutSample)} {i : Nat} {te : TEnt
     rw [← hv]
     simp only [hpe, Option.map_some, Option.getD_some]
 
+/-- one step of the specification fold keeps "no accepted sample has tid 0" (used by `C01_accepted_no_idle`) -/
+theorem accStep_no_idle (st : Last × List Acc) (r : Rec) (h : ∀ a ∈ st.2, a.tid ≠ 0) :
+    ∀ a ∈ (accStep st r).2, a.tid ≠ 0 := by
+  cases r with
+  | sample pid tid t km period ip chain =>
+    simp only [accStep]
+    split
+    · exact h
+    · split
+      · exact h
+      · intro a ha
+        simp only [List.mem_append, List.mem_singleton] at ha
+        rcases ha with ha | ha
+        · exact h a ha
+        · subst ha; assumption
+  | exit pid tid t => simp only [accStep]; split <;> exact h
+  | comm pid tid name isExec t =>
+    cases isExec
+    · exact h
+    · simp only [accStep]; split <;> exact h
+  | fork => exact h
+  | mmap2 => exact h
+  | switchIn => exact h
+  | switchOut => exact h
+  | sched => exact h
+
 end Conv
